@@ -221,7 +221,10 @@ func (p *WorkerPool) Stats() (maxWorkers int, activeWorkers int, queuedTasks int
 	maxWorkers = p.maxWorkers
 	p.resizeMu.Unlock()
 	activeWorkers = int(atomic.LoadInt32(&p.activeWorkers))
+	// Resize replaces the queue under closeMu
+	p.closeMu.RLock()
 	queuedTasks = len(p.taskQueue)
+	p.closeMu.RUnlock()
 	return
 }
 
